@@ -198,6 +198,8 @@ class Orchestrator:
         if tier == 'thorough':
             jobs.append(('repo_allfeat', [run, self.repo, os.path.join(fdir, 'facts_repo_allfeat'), os.path.join(self.work, 'target-repo-allfeat'),
                                           '-p', 'truc', '--all-features'], dict(base_env)))
+        jobs.append(('positive', [run, os.path.join(self.here, 'fixtures', 'positive'), os.path.join(fdir, 'facts_positive'),
+                              os.path.join(self.work, 'target-positive')], dict(base_env)))
         idx_dir = os.path.join(fdir, 'corpus_idx')
         for i in range(nshard):
             env = dict(base_env, CORPUS_SHARD='%d/%d' % (i, nshard), CORPUS_INDEX_DIR=idx_dir, MIRDUMP_CRATES='corpus', CORPUS_KIND='main')
@@ -268,7 +270,8 @@ class Orchestrator:
         prim_summary = {}
         try:
             import src_engine
-            src = src_engine.run(f_on, f_off, nonce, os.path.join(fdir, 'facts_repo_allfeat') if tier == 'thorough' else None)
+            src = src_engine.run(f_on, f_off, nonce, os.path.join(fdir, 'facts_repo_allfeat') if tier == 'thorough' else None,
+                                 positive=os.path.join(fdir, 'facts_positive'))
             res['findings'] += src['findings']
             res['engines']['SRC'] = src['evidence']
             res['errors'] += src.get('errors', [])
